@@ -222,6 +222,27 @@ def run_fn(case):
         ba = importlib.import_module('rimu.blockattributes')
         ba.ids = list(a[:-1])
         return {'v': ba.slugify(a[-1])}
+    if f in ('spans', 'macros'):
+        purge()
+        doc = importlib.import_module('rimu.document')
+        opt = importlib.import_module('rimu.options')
+        mac = importlib.import_module('rimu.macros')
+        doc.init()
+        opt.safeMode = int(a[0])
+        log = []
+        opt.callback = lambda m: log.append(m.text)
+        mac.defs.append(mac.Macro('m', a[1]))
+        mac.defs.append(mac.Macro('n', a[2]))
+        try:
+            if f == 'spans':
+                h = importlib.import_module('rimu.spans').render(a[3])
+            else:
+                h = mac.render(a[3])
+            return {'o': h, 'n': len(log)}
+        except BaseException as e:  # noqa
+            if isinstance(e, (KeyboardInterrupt, SystemExit)):
+                raise
+            return {'x': exn_kind(e)}
     db = importlib.import_module('rimu.delimitedblocks')
     if f == 'qpara':
         return {'v': db.quoteParagraphContentFilter(a[0])}
